@@ -95,7 +95,9 @@ func (c *FnCtx) doCall(frame *Frame, st *State, in ssa.Instruction, call *ssa.Ca
 				}
 				return
 			}
-			k(st, c.havocResult(st, rt, "noop"))
+			// logging / metrics: arbitrary results; they allocate nothing the program can reach
+			// except those results
+			k(st, c.contractResult(st, rt, "noop"))
 			return
 		}
 	}
